@@ -32,10 +32,25 @@ func MakeFromRequest(r *http.Request) CacheKey {
 		scheme = "https"
 	}
 	normHost := strings.ToLower(r.Host)
-	normPath := path.Clean(r.URL.Path)
-	stringKey := fmt.Sprintf("%s|%s|%s|%s|%s", scheme, r.Method, normHost, normPath, r.URL.RawQuery)
-	slog.Debug("Creating cache key", "key", stringKey)
+	normPath := normalizePath(r.URL.EscapedPath())
+	// The components are joined with a separator that cannot occur inside any of them ('|' can:
+	// "/a|b?c" and "/a?b|c" must not end up with the same key).
+	stringKey := strings.Join([]string{scheme, r.Method, normHost, normPath, r.URL.RawQuery}, "\x00")
+	slog.Debug("Creating cache key", "key", strings.ReplaceAll(stringKey, "\x00", "|"))
 	return FromString(stringKey)
+}
+
+// Removes dot-segments and duplicate slashes from the path as the client encoded it (so that
+// "%2F" stays distinct from "/"), keeping a trailing slash: "/dir/" and "/dir" are different resources.
+func normalizePath(escapedPath string) string {
+	if escapedPath == "" {
+		return "/"
+	}
+	clean := path.Clean(escapedPath)
+	if clean != "/" && (strings.HasSuffix(escapedPath, "/") || strings.HasSuffix(escapedPath, "/.") || strings.HasSuffix(escapedPath, "/..")) {
+		clean += "/"
+	}
+	return clean
 }
 
 func (ck *CacheKey) String() string {
